@@ -1,6 +1,7 @@
 import Stackage.Driver.Hist
 import Stackage.Driver.Render
 import Stackage.Driver.Cond
+import Stackage.Driver.Marshal
 
 /-! Correspondence driver: case lines on stdin, `<id> M <model>` and `<id> S <spec>` lines on stdout. -/
 
@@ -11,6 +12,8 @@ def dispatch (stream payload : String) : String × String × String :=
   else if stream == "render" then runRender payload
   else if stream == "strunit" then runStrUnit payload
   else if stream == "condhist" then runCondHist payload
+  else if stream == "roundtrip" then runRoundtrip payload
+  else if stream == "anytrees" then runAnyTrees payload
   else ("NOSTREAM", "NOSTREAM", "")
 
 partial def loop (h : IO.FS.Stream) (out : IO.FS.Stream) : IO Unit := do
